@@ -208,11 +208,19 @@ func libTwin(pool *wproto.Pool, inv cliInv, target string) wproto.Rep {
 	return pool.Call(rq, 30*time.Second)
 }
 
+// repoDir is the repository under test: /repo (VERIF_REPO only when a seeded change is evaluated in a scratch copy).
+func repoDir() string {
+	if d := os.Getenv("VERIF_REPO"); d != "" {
+		return d
+	}
+	return "/repo"
+}
+
 func checkC16(r *evid.Run) {
 	// the binary under test, built from /repo's working tree
 	bin := filepath.Join(os.TempDir(), "gtree-cli")
 	cmd := exec.Command("go", "build", "-o", bin, "./cmd/gtree")
-	cmd.Dir = "/repo"
+	cmd.Dir = repoDir()
 	cmd.Env = append(os.Environ(), "GOFLAGS=-mod=mod", "GOPROXY=off")
 	if b, err := cmd.CombinedOutput(); err != nil {
 		r.Broken("cannot build cmd/gtree: %v\n%s", err, b)
@@ -354,7 +362,7 @@ func checkCLIState(r *evid.Run, bin string, pool *wproto.Pool, s *cliState) {
 
 // templatePipe: `gtree template | gtree output` renders the tree documented in README.md
 func templatePipe(r *evid.Run, bin string) {
-	readme, err := os.ReadFile("/repo/README.md")
+	readme, err := os.ReadFile(filepath.Join(repoDir(), "README.md"))
 	if err != nil {
 		r.Broken("README.md: %v", err)
 		return
